@@ -31,6 +31,13 @@ def layout(m):
         for k in keys:
             if k not in d:
                 raise AnalysisError("anchor vanished: list field %s" % k)
+    # the structural rules reason about a list that is exactly {head, tail} over nodes that are exactly {next}: with further
+    # state in the list or its nodes (a count, a flag, a back link) emptiness and membership can be decided from that state
+    # instead, and these rules cannot tell a correct use of it from a wrong one
+    extra = sorted(set(L) - {"head", "tail"}) + sorted(set(N) - {"next"})
+    if extra:
+        raise AnalysisError("anchor vanished: list_t / list_node_t carry additional state (%s): the list's representation changed and "
+                            "the rules stated over {head, tail, next} cannot decide this tree" % ", ".join(extra))
     return L, N, I
 
 
